@@ -47,7 +47,11 @@ def scenarios(ctx, rng):
           ent("k", old, {"time": "7"}), None)
         S("utf8-key-and-metadata", mode, W(ukey, new, {"metadata": umeta}), [W(ukey, old, {"time": "7"})], ukey,
           ent(ukey, old, {"time": "7"}), ent(ukey, new, {"metadata": umeta}))
+        hist25 = [W("k", b"gen-%d" % g, {"time": str(100 + g)}) for g in range(24)] + [W("k", old, {"time": "7"})]
+        S("overwrite-after-25-records", mode, W("k", new, {}), hist25, "k", ent("k", old, {"time": "7"}), ent("k", new, {}))
         if not ctx.quick or mode == "sync@astd":
+            S("remove-after-25-records", mode, {"op": "remove", "cache": "<C>", "key": "k"}, hist25, "k",
+              ent("k", old, {"time": "7"}), None)
             S("remove-absent", mode, {"op": "remove", "cache": "<C>", "key": "never"}, [], "never", None, None)
             S("big-metadata", mode, W("k", new, {"metadata": bigmeta}), [W("k", old, {"time": "7"})], "k",
               ent("k", old, {"time": "7"}), ent("k", new, {"metadata": bigmeta}))
